@@ -100,8 +100,16 @@ let wf_string (s : store) : string =
 
 let str_res f = function Ok x -> f x | Panic -> "panic" | NoFuel -> "nofuel"
 
+(* o=p in the header: the language is too large to enumerate; counts and probe ranks only *)
+let probe_only = ref false
+
 let observe (s2 : store) (maxlen : int) (blank : n) (pats : word list) : string =
   let lk w = str_res (function Some r -> string_of_z r | None -> "-") (lookup s2 root w) in
+  let probes = clip (String.concat "," (List.map (fun p -> hex_of_word p ^ ":" ^ lk p) pats)) in
+  if !probe_only then
+    Printf.sprintf "nw=%s nodes=%s probes=%s" (str_res string_of_z (number_of_words s2 root))
+      (str_res (fun k -> string_of_int (int_of_nat k)) (with_fuel (fun f -> number_of_nodes f s2 root))) probes
+  else
   let ws = words_from (nat_of_int (maxlen + 2)) s2 root in
   let wl = match ws with Ok l -> l | _ -> [] in
   let words_s = str_res (fun l -> String.concat "," (List.map hex_of_word l)) ws in
@@ -112,8 +120,8 @@ let observe (s2 : store) (maxlen : int) (blank : n) (pats : word list) : string 
   let search p =
     let hits = List.filter (fun (w, _) -> pat_match blank p w) wr in
     hex_of_word p ^ "=" ^ String.concat "," (List.map (fun (w, r) -> hex_of_word w ^ "@" ^ r) hits) in
-  Printf.sprintf "words=%s ranks=%s nw=%s nodes=%s search=%s"
-    (clip words_s) (clip (String.concat "," ranks)) nw nodes (clip (String.concat ";" (List.map search pats)))
+  Printf.sprintf "words=%s ranks=%s nw=%s nodes=%s search=%s probes=%s"
+    (clip words_s) (clip (String.concat "," ranks)) nw nodes (clip (String.concat ";" (List.map search pats))) probes
 
 (* height of the automaton (longest path from the root), for the fuel of [words_from];
    bounded so that a cyclic store (never generated; the domain check reports it) cannot loop *)
@@ -180,6 +188,7 @@ let () =
       let i = String.index line ';' in
       let header = String.sub line 0 i in
       let toks = split_nonempty ' ' (String.sub line (i + 1) (String.length line - i - 1)) in
+      probe_only := false;
       let blank = ref (n_of_int 63) and pats = ref [] and nsrc = ref 0 and streams = ref [] and prog = ref false in
       List.iter (fun kv ->
           match String.index_opt kv '=' with
@@ -189,6 +198,7 @@ let () =
             if k = "b" then blank := n_of_int (int_of_string ("0x" ^ v))
             else if k = "s" then pats := List.map word_of_hex (split_nonempty '.' v)
             else if k = "n" then nsrc := int_of_string v
+            else if k = "o" then probe_only := (v = "p")
             else if k = "p" then prog := (v <> "")
             else if k = "x" then
               List.iter (fun e ->
